@@ -176,34 +176,39 @@ def counterexample(scratch, ob, log=print):
         return None, "counterexample generation timed out", None
     out = p.stdout
     tests = re.findall(r"```\n(.*?)```", out, re.S)
-    chosen = None
-    for t in tests:
-        if "Check for `cover`" in t:
-            continue
-        chosen = t
-        break
     kani_tail = "\n".join(l for l in out.splitlines() if ("Failed Checks" in l or "File:" in l or "VERIFICATION" in l))
-    if not chosen:
-        return None, kani_tail + "\n(no concrete playback test was produced for the failing check)", None
+    if not tests:
+        return None, kani_tail + "\n(no concrete playback test was produced)", None
+    # Kani de-duplicates playback tests by concrete values, so the counterexample of the failing check may be
+    # labelled with a cover! goal that happens to share its inputs. Run ALL of them natively against the real
+    # code and keep the ones that actually fail there.
     hfile = os.path.join(scratch.kani_src, os.path.basename(ob.src_file))
     with open(hfile, "a") as f:
-        f.write("\n" + chosen + "\n")
-    m = re.search(r"fn (kani_concrete_playback_\w+)", chosen)
-    tname = m.group(1)
+        for t in tests:
+            f.write("\n" + t + "\n")
+    names = [re.search(r"fn (kani_concrete_playback_\w+)", t).group(1) for t in tests]
+    chosen = None
     try:
-        p2 = subprocess.run(["cargo", "kani", "playback", "-Z", "concrete-playback", "-Z", "stubbing", "--", tname],
+        p2 = subprocess.run(["cargo", "kani", "playback", "-Z", "concrete-playback", "-Z", "stubbing", "--",
+                             "kani_concrete_playback_" + ob.harness],
                             cwd=cdir, env=_env(), stdout=subprocess.PIPE, stderr=subprocess.STDOUT,
                             timeout=1200, text=True, errors="replace")
         pout = p2.stdout
+        failed_names = re.findall(r"test \S*?(kani_concrete_playback_\w+) \.\.\. FAILED", pout)
         ran = re.search(r"test result: (\w+)\. (\d+) passed; (\d+) failed", pout)
-        if ran and int(ran.group(3)) >= 1:
+        for t, n in zip(tests, names):
+            if n in failed_names:
+                chosen = t
+                break
+        if chosen:
             reproduced = True
-        elif ran and int(ran.group(2)) >= 1:
+        elif ran:
             reproduced = False
         else:
             reproduced = None
-        keep = [l for l in pout.splitlines() if ("panicked" in l or "test result" in l or "kani_concrete" in l
+        keep = [l for l in pout.splitlines() if ("panicked" in l or "test result" in l or "... FAILED" in l or "... ok" in l
                                                   or l.strip().startswith(("O-", "attempt", "index", "range")))]
-        return chosen, kani_tail + "\n--- native playback on the real code ---\n" + "\n".join(keep[-25:]), reproduced
+        note = "" if chosen else "\n(none of the %d generated inputs failed natively)" % len(tests)
+        return chosen, kani_tail + "\n--- native playback on the real code ---\n" + "\n".join(keep[-25:]) + note, reproduced
     except subprocess.TimeoutExpired:
         return chosen, kani_tail + "\n(native playback timed out)", None
